@@ -198,8 +198,9 @@ R["C05"] = {"harnesses": apply_harnesses() + [H("H_Merge", MERGE_Q, None, ["merg
     "assumptions": ["order among members that MergePatch adds is unspecified (Go map iteration) and not asserted"],
     "outside_bound": AP_OUTSIDE}
 C08_K1_OPTS = {"k": 1, "kmask0": 63, "maxtok": 2, "tokmask": 1, "shapemask": ALLSHAPES, "nvals": 2, "optmask": 1}
+C08_DUP = {"k": 2, "kmask0": 63, "kmask1": 63, "maxtok": 1, "tokmask": 1, "shapemask": 2097152, "nvals": 2}
 C08_OPTS = {"k": 2, "kmask0": 63, "kmask1": 63, "maxtok": 1, "tokmask": 1, "shapemask": 8194, "nvals": 2, "optmask": 15}
-R["C08"] = {"harnesses": apply_harnesses(extra_quick=[C12_K1, C08_K1_OPTS], extra_thorough=[C08_K1_OPTS, C08_OPTS, C12_K2, C13_K2]) ,
+R["C08"] = {"harnesses": apply_harnesses(extra_quick=[C12_K1, C08_K1_OPTS, C08_DUP], extra_thorough=[C08_K1_OPTS, C08_OPTS, C12_K2, C13_K2, C08_DUP]) ,
     "anchors": AP_ANCHORS + ["(github.com/evanphx/json-patch/v5.Patch).ApplyIndentWithOptions"],
     "assumptions": ["error classes come from the reference evaluator: testFailed only when a comparison was made and came out unequal; missing for absent members and unreachable parents; copyLimit from the running escaped total"],
     "outside_bound": AP_OUTSIDE}
@@ -262,6 +263,7 @@ R["C09"] = {"harnesses": [
     H("H_C09_StaleDecoder", [{}], None, ["C09/stale/end", "C09/stale/object"],
       "one inductive step: a decodeState in an arbitrary stale condition (symbolic offset, opcode, scanner byte count and top-of-stack entry; stale saved error, error context, key list, scanner step function, scanner error) goes through set-useNumber / [checkValid] / init / unmarshal of 6 texts into any, map and slice destinations and must give the outcome of a brand-new state"),
     H("H_Options_Reuse", [{}], None, ["reuse/end"], "one ApplyOptions value reused across calls that fail or succeed: the options are not written and the next call is unaffected"),
+    dict(H("H_Repeat_Stable", [{}], None, ["repeat/end"], "the same Apply / CreateMergePatch twice on 3 documents (two of them spelling a member name twice) x 4 patches, with ALTERNATING map iteration order in the interpreter: the bytes must not depend on Go's map order"), map_alternate=True),
     H("H_SharedPatch", [{}], None, ["shared/end"], "one decoded Patch applied to D1, D2, D1 vs a freshly decoded Patch each time; the Patch's raw messages and a result fed back as the next document are compared byte for byte before/after")],
     "anchors": ["internal/json.UnmarshalValid", "internal/json.MarshalEscaped", "(*github.com/evanphx/json-patch/v5/internal/json.decodeState).init", "internal/json.newScanner", "internal/json.freeScanner", "(github.com/evanphx/json-patch/v5.Operation).value", "v5.newRawMessage"],
     "assumptions": ["sync.Pool = per-pool LIFO stack (the behaviour of the runtime on one goroutine with GC off; the native replay runs with GC disabled)", "concurrency is C10 (not applicable)"],
